@@ -237,6 +237,112 @@ class KDotA:
         return bool(err > 1e-9), dict(check="a_i . k - 2 pi kappa_i (native)", max_abs_err=float(err))
 
 
+def kpoints_histories():
+    """BOUNDED set of mutation histories of a KPoints object; each must end in the state of a fresh object with the same final inputs
+    (k-points, weights, count): weights are the equal weights of the generated set whatever the object held before, and a band path has the
+    requested number of points whatever the order of the assignments. Returns (violated?, info)."""
+    import eminus
+    from eminus.kpoints import KPoints
+
+    eminus.config.backend = "numpy"
+    eminus.config.verbose = "critical"
+    a = np.array([[6.0, 0.3, 0.0], [0.0, 5.0, 0.4], [0.2, 0.0, 7.0]])
+
+    def fresh(lat="sc", **kw):
+        k = KPoints(lat, a if lat == "sc" else 6.0 * np.array([[0, 0.5, 0.5], [0.5, 0, 0.5], [0.5, 0.5, 0]]))
+        for n, v in kw.items():
+            setattr(k, n, v)
+        return k
+
+    H = {}
+
+    def h1():
+        k = fresh(kmesh=[3, 1, 1], gamma_centered=False)
+        k.build()
+        k.trs()
+        k.kmesh = [2, 1, 1]
+        return k.build(), fresh(kmesh=[2, 1, 1], gamma_centered=False).build()
+
+    def h2():
+        k = fresh(kmesh=[2, 1, 1])
+        k.build()
+        k.wk = [0.25, 0.75]
+        k.kmesh = [1, 1, 2]
+        return k.build(), fresh(kmesh=[1, 1, 2]).build()
+
+    def h3():
+        k = fresh("fcc")
+        k.build()  # mesh mode (Gamma point)
+        k.Nk = 25
+        k.path = "LGXU,KG"
+        f = fresh("fcc")
+        f.path = "LGXU,KG"
+        f.Nk = 25
+        return k.build(), f.build()
+
+    def h4():
+        k = fresh(kmesh=[2, 2, 1])
+        k.build()
+        k.path = "GXM"
+        k.Nk = 9
+        k.build()
+        k.kmesh = [2, 2, 1]
+        return k.build(), fresh(kmesh=[2, 2, 1]).build()
+
+    def h5():
+        k = fresh(kmesh=[3, 3, 3], gamma_centered=False)
+        k.build()
+        k.trs()
+        k.kshift = [0.1, 0.0, 0.2]
+        k.kmesh = [7, 2, 1]
+        return k.build(), fresh(kmesh=[7, 2, 1], gamma_centered=False, kshift=[0.1, 0.0, 0.2]).build()
+
+    def h6():
+        k = fresh()
+        k.Nk = 7
+        k.path = "GXMGR"
+        k.build()
+        k.Nk = 12
+        f = fresh()
+        f.path = "GXMGR"
+        f.Nk = 12
+        return k.build(), f.build()
+
+    H = {"MP 3x1x1 -> trs() -> kmesh (2,1,1)": h1, "wk set by hand -> kmesh (1,1,2)": h2, "mesh mode -> Nk = 25 -> path (fcc LGXU,KG)": h3,
+         "mesh -> path -> same mesh again": h4, "MP 3x3x3 -> trs() -> kshift -> kmesh (7,2,1)": h5, "path with Nk = 7 -> Nk = 12": h6}
+    bad = []
+    for name, h in H.items():
+        try:
+            k, f = h()
+        except Exception as e:  # noqa: BLE001
+            bad.append(dict(history=name, raised=f"{type(e).__name__}: {e}"))
+            continue
+        diff = []
+        if k.Nk != f.Nk or np.shape(k.k) != np.shape(f.k):
+            diff.append(f"Nk {k.Nk} vs fresh {f.Nk}")
+        else:
+            if not np.allclose(np.asarray(k.k), np.asarray(f.k), atol=1e-12):
+                diff.append("k-points")
+            if not np.allclose(np.asarray(k.wk), np.asarray(f.wk), atol=1e-14):
+                diff.append(f"weights {np.asarray(k.wk).tolist()[:4]} vs fresh {np.asarray(f.wk).tolist()[:4]}")
+        if diff:
+            bad.append(dict(history=name, differs_from_fresh_object=diff))
+    return bool(bad), dict(check="KPoints after a mutation history vs a fresh object with the same final inputs", histories=len(H), failing=bad[:4])
+
+
+class KHistories:
+    def __call__(self, ob, tier, seed):
+        from pycv.framework import BOUNDED_OK
+
+        bad, info = kpoints_histories()
+        if bad:
+            return Result(REFUTED, backend="native", witness=info["failing"][0], replayed=True, replay_info=info, detail=f"KPoints: {info['failing'][0]}")
+        return Result(BOUNDED_OK, backend="native", stats=info, detail=f"bounded: {info['histories']} mutation histories end in the state of a fresh object (k-points, equal weights, requested count)")
+
+    def replay(self, wit):
+        return kpoints_histories()
+
+
 class Weights:
     """KPoints.build: wk = ones(N)/N sums to one (N >= 1)."""
 
@@ -252,8 +358,13 @@ class Weights:
             if isinstance(n, ast.Assign) and ast.unparse(n.targets[0]) == "self.wk" and "len(self._k_scaled)" in ast.unparse(n.value):
                 stmt = ast.unparse(n.value)
         if stmt != "xp.ones(len(self._k_scaled)) / len(self._k_scaled)":
-            return Result(REFUTED, backend="engine-Z", detail=f"weights are assigned as `{stmt}`, not ones(N)/N",
-                          witness=dict(clause="weights"))
+            # the statement is not in the recognised form: no proof; only a native failure (fresh build or a mutation history) is a refutation
+            ok1, info1 = self.replay({})
+            ok2, info2 = kpoints_histories()
+            if ok1 or ok2:
+                return Result(REFUTED, backend="native", detail=f"weights after build() are not the equal weights of the generated set (assigned as `{stmt}`)",
+                              witness=dict(clause="weights"), replayed=True, replay_info=info1 if ok1 else info2)
+            return Result(UNDECIDED, backend="engine-Z", detail=f"weights are assigned as `{stmt}`: form not recognised")
         N = z3.Int("N")
         v, _ = _z3_prove([N >= 1], z3.ToReal(N) * (1 / z3.ToReal(N)) == 1)
         return Result(DISCHARGED if v == "proved" else UNDECIDED, backend="z3")
@@ -295,6 +406,9 @@ def _register():
                         run=KDotA(), assumes=("reals", "engineA"), doc="k . a_i = 2 pi kappa_i for a symbolic 3x3 lattice matrix"))
     register(Obligation(name="C15.build.weights", prop=PROP, engine="Z", functions=["eminus.kpoints:KPoints.build"],
                         run=Weights(), assumes=("z3",), doc="equal weights ones(N)/N summing to one"))
+    register(Obligation(name="C15.KPoints.histories_equal_fresh", prop=PROP, engine="B", bounded=True, functions=["eminus.kpoints:KPoints.build", "eminus.kpoints:KPoints.path", "eminus.kpoints:KPoints.trs"],
+                        run=KHistories(), doc="BOUNDED: after mutation histories (trs, hand-set weights, mesh <-> path, Nk before / after path, shifts) the generated set, its equal weights and the "
+                                              "requested number of path points are those of a fresh object"))
     register(Obligation(name="C15.canary.mp_nonneg", prop=PROP, engine="A", functions=["eminus.kpoints:monkhorst_pack"],
                         run=Canary(), canary=True, doc="'Monkhorst-Pack coordinates are non-negative' must be refuted"))
 
